@@ -33,7 +33,7 @@ TReset ==
   /\ fresh' = [k \in ObjKinds |-> 1]
   /\ clash' = {}
   /\ episode' = Trace[l].id /\ l' = l + 1
-  /\ UNCHANGED <<wr, pc, ncall, stale>>
+  /\ UNCHANGED <<wr, pc, ncall, stale, kept>>
 
 \* Get: the logged object is either pooled or was never seen before
 TGet ==
@@ -50,7 +50,7 @@ TGet ==
           /\ holder' = [holder EXCEPT ![k][id] = @ \cup {g}]
           /\ UNCHANGED <<bag, fresh, clash>>
   /\ l' = l + 1
-  /\ UNCHANGED <<wr, pc, ncall, stale, episode>>
+  /\ UNCHANGED <<wr, pc, ncall, stale, kept, episode>>
 
 \* Put: released by its holder (a goroutine, or the user for returned issues: 0)
 TPut ==
@@ -63,7 +63,7 @@ TPut ==
         /\ clash' = IF bad THEN clash \cup {[kind |-> k, id |-> id, what |-> "released while pooled or not held"]} ELSE clash
         /\ IF bad THEN Emit(<<V("released-while-pooled-or-not-held", l, [k |-> k, id |-> id, pooled |-> bag[k][id], holders |-> holder[k][id], by |-> g])>>) ELSE TRUE
   /\ l' = l + 1
-  /\ UNCHANGED <<wr, fresh, pc, ncall, stale, episode>>
+  /\ UNCHANGED <<wr, fresh, pc, ncall, stale, kept, episode>>
 
 \* a call returned: its issues now belong to the user; one object must not stand for two issues
 TRet ==
@@ -80,7 +80,7 @@ TRet ==
            ELSE IF again # {} THEN Emit(<<V("issue-object-returned-by-two-calls", l, again)>>) ELSE TRUE
         /\ clash' = IF dup THEN clash \cup {[kind |-> "issue", id |-> 0, what |-> "one object returned as two issues"]} ELSE clash
   /\ l' = l + 1
-  /\ UNCHANGED <<bag, wr, pc, ncall, stale, episode>>
+  /\ UNCHANGED <<bag, wr, pc, ncall, stale, kept, episode>>
 
 \* differential probe result logged by the harness: the probe call after the history vs on cleared pools
 TProbe ==
